@@ -6,7 +6,7 @@ from props import e1, c07
 PROP = "C12"
 DIR = None
 T = {"a.txt": b"A", "x.tmp": b"X0", "y.tmp": b"Y0", "u.TMP": b"upper-case extension", ".DS_Store": b"finder", "sub": DIR, "sub/s.txt": b"S", "sub/x.tmp": b"SX",
-     "d": DIR, "d/c.txt": b"C", "d/x.tmp": b"DX", "d/sub": DIR, "d/sub/t.txt": b"T", "patterns.lst": b"*.tmp\n\nsub/",
+     "d": DIR, "d/c.txt": b"C", "d/x.tmp": b"DX", "d/sub": DIR, "d/sub/t.txt": b"T", "patterns.lst": b"*.tmp\n\nsub/\nspare copy.mov", "spare copy.mov": b"a name with a blank, excluded by a line of the pattern file",
      # a FILE that has the name of a folder elsewhere, and a FOLDER that has the name of a file elsewhere (directory-only patterns)
      "e": DIR, "e/sub": b"a file called sub", "cache": b"a file called cache", "d/cache": DIR, "d/cache/k.bin": b"K",
      # names with characters that patterns have to escape
